@@ -479,6 +479,12 @@ pub fn op_elg(a: &[&str]) -> String {
                     return format!("variant-mismatch:threads{}", t);
                 }
             }
+            // re-configuration: the last accepted thread count / batch size governs, whatever was set before
+            for seq in [&[4usize, 1][..], &[8, 2], &[2, 1, 4], &[16, 1]] {
+                let mut d = sk.decrypt(&ct);
+                for t in seq { if d.num_threads(std::num::NonZeroUsize::new(*t).unwrap()).is_err() { return "variant-mismatch:threads-seq".into() } }
+                if d.decode_u32() != r1 { return format!("variant-mismatch:threads-seq{:?}", seq) }
+            }
             match r1 { Some(x) => format!("some:{}", x), None => "none".into() }
         }
         ["op", ty, op, x, y] => match (*ty, *op) {
